@@ -326,3 +326,77 @@ pub fn gen_queue(seed: u64, ncases: u64, maxlen: u64, out: &Sink) {
         out.push("q.len".to_string());
     }
 }
+
+/// E-conc programs (DESIGN §4.5): a level pre-loaded with Standard / Iceberg / Reserve orders,
+/// 2-4 threads each issuing 1-3 add / match / cancel / quantity-amend / read / next operations,
+/// and a schedule (random with bursts, so that both coarse and fine interleavings occur).
+pub fn gen_conc(seed: u64, ncases: u64, scheds_per_prog: u64, out: &Sink) {
+    let mut r0 = Rng::new(seed ^ 0x434f_4e43);
+    let mut case = 0u64;
+    for _ in 0..ncases {
+        let mut r = r0.fork();
+        let price = 100u64;
+        let npre = r.range(1, 4);
+        let mut pre: Vec<Order> = Vec::new();
+        for i in 0..npre {
+            let id = pool_id(1 + i);
+            let kind = *r.pick(&[0u8, 0, 5, 5, 6, 6, 1]);
+            let vis = r.range(1, 12);
+            let hid = if kind >= 5 { r.below(20) } else { 0 };
+            let thr = r.below(4);
+            let amt = match r.below(4) { 0 => None, 1 => Some(0), _ => Some(r.range(1, 9)) };
+            let o = mk_order(kind, id, price, vis, hid, thr, amt, r.chance(2, 3), if r.chance(1, 2) { Side::Buy } else { Side::Sell }, r.range(1, 9), TimeInForce::Gtc);
+            pre.push(o);
+        }
+        let nthreads = r.range(2, 4);
+        let mut fresh = 10u64;
+        let mut progs: Vec<Vec<String>> = Vec::new();
+        for _ in 0..nthreads {
+            let nops = r.range(1, 3);
+            let mut ops = Vec::new();
+            for _ in 0..nops {
+                let target = pool_id(1 + r.below(npre));
+                ops.push(match r.below(100) {
+                    0..=19 => {
+                        fresh += 1;
+                        let kind = *r.pick(&[0u8, 5, 6]);
+                        let o = mk_order(kind, pool_id(fresh), price, r.range(1, 10), if kind >= 5 { r.below(12) } else { 0 }, r.below(3),
+                                         if r.chance(1, 2) { None } else { Some(r.range(0, 6)) }, r.chance(2, 3), Side::Sell, r.range(1, 9), TimeInForce::Gtc);
+                        format!("add~{}", show_order(&o))
+                    }
+                    20..=49 => format!("match~{}~{}", r.range(1, 25), show_id(&pool_id(900 + r.below(3)))),
+                    50..=69 => format!("cancel~{}", show_id(&target)),
+                    70..=87 => format!("amend~{}~{}", show_id(&target), r.range(0, 14)),
+                    88..=95 => format!("read~{}", r.pick(&["vis", "hid", "cnt", "list"])),
+                    _ => "next".to_string(),
+                });
+            }
+            progs.push(ops);
+        }
+        for _ in 0..scheds_per_prog {
+            out.push(format!("case {case}"));
+            case += 1;
+            out.push(format!("new {price}"));
+            for o in &pre {
+                out.push(format!("add {}", show_order(o)));
+            }
+            for (k, p) in progs.iter().enumerate() {
+                out.push(format!("conc.thread {} {}", k, p.join(";")));
+            }
+            // schedule: bursts of random length per thread
+            let mut sched: Vec<String> = Vec::new();
+            let bursty = r.chance(1, 2);
+            while sched.len() < 90 {
+                let t = r.below(nthreads);
+                let len = if bursty { r.range(1, 9) } else { 1 };
+                for _ in 0..len {
+                    sched.push(t.to_string());
+                }
+            }
+            out.push(format!("conc.run {}", sched.join(",")));
+            out.push("state".to_string());
+            out.push(format!("match {} {}", 1u64 << 40, show_id(&pool_id(999))));
+            out.push("state".to_string());
+        }
+    }
+}
